@@ -75,7 +75,7 @@ class WaterCycleOptimization(OptimizationAbstract):
         best_agent_pos = self._best_agent.position
 
         self.__streams = {
-            idx: list(map(lambda s: evolve_stream(idx, s), streams)) for idx, streams in self.__streams.items()
+            idx: [evolve_stream(idx, s) for s in streams] for idx, streams in self.__streams.items()
         }
         self.__pop_best = [self._greedy_select_agent(
             best_agent(self.__streams[idx]), stream
